@@ -224,8 +224,15 @@ def build_case(seed, slice_, i, fam, n, target, h):
         ev = np.linalg.eigvals(A * (target / nrm))
         grow = ev.real.max()
         if grow > 60.0:
-            A = A - (grow - 60.0) * (nrm / target) * np.eye(n)
-            nrm = np.linalg.norm(A, 1)
+            if fam in SINGULAR_FAMILIES or fam == "nearsing":
+                # a shift would destroy the (near-)singularity: flip the sign instead
+                # when that tames the growth, else leave it (the oracle refuses cases
+                # whose reference leaves the float range)
+                if (-ev.real).max() <= 60.0:
+                    A = -A
+            else:
+                A = A - (grow - 60.0) * (nrm / target) * np.eye(n)
+                nrm = np.linalg.norm(A, 1)
     A = A * (target / (nrm * h))
     # land exactly on the requested side of the dispatcher threshold
     for _ in range(4):
@@ -238,7 +245,7 @@ def build_case(seed, slice_, i, fam, n, target, h):
 
 def expm_cases(tier, slice_, nslice):
     """Deterministic stratified list of (i, fam, n, target, h) for this slice."""
-    reps = 1 if tier == "quick" else 12
+    reps = 2 if tier == "quick" else 30
     out = []
     i = 0
     for rep in range(reps):
@@ -347,8 +354,23 @@ def install_branch_monitor(em, trace):
 # -------------------------------------------------------------------------------------
 
 def _perturb(X, r, mag=1e-13):
+    """Element-wise relative perturbation (for B, C, D, u, h: the maps are linear)."""
     import numpy as np
     return X * (1.0 + mag * r.uniform(-1, 1, np.shape(X)))
+
+
+def _perturb_norm(A, r, mag=1e-13):
+    """Norm-wise perturbation of a matrix argument of exp/log: every entry moves by
+    mag * max(|a_ij|, ||A||_1 / n).  Scaling-and-squaring / eigen-decomposition based
+    algorithms are at best norm-wise backward stable (their legitimate error grows like
+    eps ||A h||), so this -- not an element-wise relative perturbation, which leaves
+    the slow entries of a graded or triangular matrix untouched -- is the perturbation
+    class against which "round-off" has to be measured."""
+    import numpy as np
+    A = np.asarray(A, float)
+    n = A.shape[0]
+    lvl = np.maximum(np.abs(A), np.linalg.norm(A, 1) / n)
+    return A + mag * lvl * r.uniform(-1, 1, A.shape)
 
 
 class Ref:
@@ -358,10 +380,11 @@ class Ref:
         import numpy as np
         from vf.oracles import expm_mp
         self.A, self.h, self.dps = A, h, dps
+        self.norm1 = float(abs(h) * np.linalg.norm(A, 1))
         self.mp0 = expm_mp.expm_ints(A, h, dps)
         self.pert = []
         for _ in range(npert):
-            Ak = _perturb(A, r)
+            Ak = _perturb_norm(A, r)
             hk = float(h * (1.0 + 1e-13 * r.uniform(-1, 1)))
             self.pert.append((Ak, hk, expm_mp.expm_ints(Ak, hk, dps)))
         self.r = r
@@ -375,11 +398,17 @@ class Ref:
                           for x in (self.E, self.I1, self.I2))
 
     def tol(self, nm, want=None, sig=None):
+        """200 x measured conditioning x eps  +  (1e-13 + 20 eps ||Ah||_1) x scale.
+
+        The last term is the legitimate error growth of scaling and squaring (its
+        backward error is relative to the norm of the matrix that is exponentiated --
+        for getEPQ2 the augmented one -- even when the requested block, e.g. I1 or I2
+        of a decaying system, is itself insensitive to A)."""
         import numpy as np
         want = getattr(self, nm) if want is None else want
         sig = self.sig[nm] if sig is None else sig
         scale = float(np.max(np.abs(want))) if np.size(want) else 0.0
-        return 200.0 * (sig / 1e-13) * EPS + 1e-13 * scale
+        return 200.0 * (sig / 1e-13) * EPS + (1e-13 + 20.0 * EPS * self.norm1) * scale
 
     def epq(self, order, B, half):
         """(E, P, Q, tolE, tolP, tolQ) as float arrays / scalars for one option set."""
@@ -399,3 +428,885 @@ class Ref:
         tolP = self.tol("P", P0f, sP)
         tolQ = self.tol("Q", Q0f, sQ) if Q0 is not None else 0.0
         return self.E, P0f, Q0f, self.tol("E"), tolP, tolQ
+
+
+# -------------------------------------------------------------------------------------
+# part A runner
+# -------------------------------------------------------------------------------------
+
+def _nil_index(A):
+    """(nilpotent?, index) by exact repeated multiplication of the normalised matrix."""
+    import numpy as np
+    n = A.shape[0]
+    s = np.abs(A).max()
+    if s == 0:
+        return True, 1
+    X = A / s
+    P = X.copy()
+    k = 1
+    while P.any() and k <= n:
+        P = P @ X
+        k += 1
+    return (not P.any()), k
+
+
+def _relerr(got, want):
+    import numpy as np
+    got = np.asarray(got, float)
+    want = np.asarray(want, float)
+    if got.shape != want.shape:
+        return float("inf")
+    sc = float(np.max(np.abs(want))) if want.size else 0.0
+    e = np.abs(got - want)
+    if not np.all(np.isfinite(e)):
+        return float("inf")
+    e = float(e.max()) if e.size else 0.0
+    return e / sc if sc > 0 else (0.0 if e == 0 else float("inf"))
+
+
+def _defect_domain(tags):
+    """Mechanism part of the two open _geti2 findings (findings/C07.json) -- used only to
+    report the margins of the *other* cases separately; the verdict never uses it."""
+    if tags.get("route") not in ("expmint-geti2", "getEPQ1-order1"):
+        return False
+    p = tags.get("geti2_path")
+    if p == "direct":
+        return tags.get("smin_h", 1.0) < 1.0
+    if p in ("series", "series-fail"):
+        return tags.get("norm1", 0.0) > 8.5
+    return False
+
+
+def _check(sh, kind, got, want, tol, case, tags, src_scale=None):
+    """check_close with the relative error recorded as a tag (symptom for findings)."""
+    import numpy as np
+    t = dict(tags)
+    if not _defect_domain(tags):
+        try:
+            e = np.abs(np.asarray(got, float) - np.asarray(want, float))
+            sh.worst(kind + "[outside-known-defect-domain]",
+                     float(np.max(e / tol)) if e.size else 0.0)
+        except Exception:
+            pass
+    g = np.asarray(got, float)
+    w = np.asarray(want, float)
+    if g.shape == w.shape and src_scale:
+        e = np.abs(g - w)
+        t["relerr"] = float(e.max()) / src_scale if np.all(np.isfinite(e)) else float("inf")
+    else:
+        t["relerr"] = _relerr(got, want)
+    return sh.check_close(kind, got, want, tol, case, t)
+
+
+def _run_expm(sh, params):
+    import numpy as np
+    from pyyeti import expmint as em
+    from vf.oracles import lti
+    trace = Trace()
+    install_branch_monitor(em, trace)
+    slice_, nslice = params["slice"], params["nslice"]
+
+    def note_branches():
+        for ev in trace.ev:
+            if isinstance(ev, str) and (ev in BRANCHES or ev in SS_BRANCHES
+                                        or ev.startswith("geti2:pade")
+                                        or ev == "geti2:series-fail"):
+                sh.count("branch:" + ev)
+            elif isinstance(ev, tuple):
+                sh.count("squarings:s=%d" % min(ev[1], 12))
+
+    def call(route, f, case, tags):
+        """Run one pyYeti call; returns result or None (exception reported)."""
+        trace.reset()
+        try:
+            with warnings.catch_warnings():
+                warnings.simplefilter("ignore")
+                out = f()
+        except Exception as e:
+            note_branches()
+            t = dict(tags)
+            t.update(exc_type=type(e).__name__,
+                     maxloops="maximum loops" in str(e),
+                     geti2_path=_geti2_path(trace))
+            sh.violation("exception:" + route, case, {"exc": repr(e)[:300]}, t)
+            sh.count("mon:exception-free")
+            return None
+        sh.count("mon:exception-free")
+        note_branches()
+        return out
+
+    for (i, fam, n, target, h) in expm_cases(sh.tier, slice_, nslice):
+        A, r = build_case(sh.seed, slice_, i, fam, n, target, h)
+        n = A.shape[0]
+        case = {"part": "expm", "slice": slice_, "i": i, "fam": fam, "n": n,
+                "target_norm": target, "h": h,
+                "regen": "vf.props.c07.build_case(seed, slice, i, fam, n, target_norm, h)"}
+        if n <= 4:
+            case["A"] = A.tolist()
+        norm1 = float(h * np.linalg.norm(A, 1))
+        sv = np.linalg.svd(A * h, compute_uv=False)
+        nil, nil_index = _nil_index(A)
+        tags0 = {"fam": fam, "n": n, "norm1": norm1, "h": h,
+                 "singular": bool(sv[0] == 0 or sv[-1] <= 1e-12 * sv[0]),
+                 "smin_h": float(sv[-1]), "nilpotent": bool(nil),
+                 "nil_index": int(nil_index)}
+        try:
+            ref = Ref(A, h, r)
+        except ArithmeticError:
+            sh.refused += 1
+            continue
+        if not ref.finite:
+            sh.refused += 1
+            sh.count("refused:nonfinite-reference")
+            continue
+        sh.case([fam, n, target, h, i, slice_], nontrivial=bool(A.any()), sample=case)
+        sh.count("family:" + fam)
+        sh.count("normcell:%g" % (target if abs(target / THETA9 - 1) > 1e-6
+                                  else (2.0978 if target < THETA9 else 2.09781)))
+        i2scale = float(np.max(np.abs(ref.I2)))
+        # symptom bound of the unscaled series: n (1+||Ah||) e^{||Ah||} h^2 eps / max|I2|
+        # (kept finite: the findings predicate multiplies it)
+        lg = (2 * math.log(h) + norm1 + math.log(n * (1 + norm1))
+              - (math.log(i2scale) if i2scale > 0 else -700.0))
+        tags0["series_amp"] = math.exp(min(lg, 690.0))
+
+        # oracle precision cross-check on a sample: 50 vs 80 digits, and the augmented
+        # mp.expm engine on small ones
+        if i % 9 == 0:
+            from vf.oracles import expm_mp
+            hi = [expm_mp.to_np(x) for x in expm_mp.expm_ints(A, h, 80)]
+            for nm, x in zip(("E", "I1", "I2"), hi):
+                sc = float(np.max(np.abs(x))) or 1.0
+                sh.check_close("oracle-precision", getattr(ref, nm), x, 1e-15 * sc,
+                               case, tags0)
+            if n <= 5:
+                au = [expm_mp.to_np(x) for x in expm_mp.expm_ints_aug(A, h, 50)]
+                for nm, x in zip(("E", "I1", "I2"), au):
+                    sc = float(np.max(np.abs(x))) or 1.0
+                    sh.check_close("oracle-augmented", getattr(ref, nm), x, 1e-15 * sc,
+                                   case, tags0)
+
+        # ---- expmint ---------------------------------------------------------------
+        t = dict(tags0, route="expmint", order=None)
+        out = call("expmint", lambda: em.expmint(A, h), case, t)
+        if out is not None:
+            if len(out) != 2:
+                sh.violation("expmint:arity", case, {"len": len(out)}, t)
+            else:
+                _check(sh, "expmint:E", out[0], ref.E, ref.tol("E"), case, t)
+                _check(sh, "expmint:I1", out[1], ref.I1, ref.tol("I1"), case, t)
+        Ain = A.tolist() if i % 5 == 0 else A       # list input is documented
+        t = dict(tags0, route="expmint-geti2", order=1)
+        out = call("expmint", lambda: em.expmint(Ain, h, True), case, t)
+        gpath = _geti2_path(trace)
+        t["geti2_path"] = gpath
+        if out is not None:
+            _check(sh, "expmint-geti2:E", out[0], ref.E, ref.tol("E"), case, t)
+            _check(sh, "expmint-geti2:I1", out[1], ref.I1, ref.tol("I1"), case, t)
+            _check(sh, "expmint-geti2:I2", out[2], ref.I2, ref.tol("I2"), case, t)
+            sh.count("i2path:" + str(gpath) + (":singular" if t["singular"] else ""))
+
+        # ---- getEPQ variants ---------------------------------------------------------
+        r_in = int(r.integers(1, 4))
+        Bmat = r.standard_normal((n, r_in))
+        bkinds = [("none", None, False), ("B", Bmat, False)]
+        if n % 2 == 0:
+            bkinds.append(("half", None, True))
+        x0 = r.standard_normal(n)
+        for order in (0, 1):
+            for bkind, B, half in bkinds:
+                Eref, Pref, Qref, tolE, tolP, tolQ = ref.epq(order, B, half)
+                bnorm = 1.0 if B is None else float(np.abs(B).sum(axis=0).max())
+                src = (i2scale / h if order == 1 else float(np.max(np.abs(ref.I1)))) \
+                    * max(bnorm, 1e-300)
+                results = {}
+                routes = ["getEPQ1", "getEPQ2", "getEPQ"]
+                if norm1 <= 4.31:
+                    routes.append("getEPQ_pow")
+                for route in routes:
+                    t = dict(tags0, route=f"{route}-order{order}", order=order,
+                             bkind=bkind, fn=route)
+                    fn = getattr(em, route)
+                    out = call(route, lambda: fn(A, h, order=order, B=B, half=half),
+                               case, t)
+                    ev = list(trace.ev)
+                    if route in ("getEPQ1", "getEPQ"):
+                        t["geti2_path"] = _geti2_path(trace)
+                    if route == "getEPQ":
+                        called = [e[5:] for e in ev if isinstance(e, str)
+                                  and e.startswith("call:")]
+                        want = "getEPQ1" if norm1 <= THETA9 else "getEPQ2"
+                        # documented: 1-norm of A*h below 2.0978... -> getEPQ1 else 2
+                        if abs(norm1 / THETA9 - 1) > 1e-13:
+                            sh.check_equal("dispatch", called, [want], case, t)
+                            if called:
+                                sh.count("branch:dispatch:" + called[0])
+                    if out is None:
+                        continue
+                    if len(out) != 3:
+                        sh.violation(f"{route}:arity", case, {"len": len(out)}, t)
+                        continue
+                    E, P, Q = out
+                    extra = 0.0
+                    if route == "getEPQ_pow":
+                        # unscaled power series: error relative to the terms added
+                        extra = 64 * EPS * math.exp(norm1)
+                    _check(sh, f"{route}:E", E, Eref, tolE + extra, case, t)
+                    _check(sh, f"{route}:P", P, Pref,
+                           tolP + extra * h * bnorm, case, t, src)
+                    if order == 1:
+                        _check(sh, f"{route}:Q", Q, Qref,
+                               tolQ + extra * h * bnorm, case, t, src)
+                    else:
+                        sh.check_equal(f"{route}:Q-order0",
+                                       bool(np.ndim(Q) == 0 and Q == 0.0), True, case, t)
+                    results[route] = (E, P, Q, t)
+                # route agreement (explicit; each route has also met the reference)
+                if "getEPQ1" in results and "getEPQ2" in results:
+                    a, b = results["getEPQ1"], results["getEPQ2"]
+                    t = dict(a[3], route=f"getEPQ1-order{order}", other="getEPQ2")
+                    _check(sh, "agree:getEPQ1~getEPQ2:E", a[0], b[0], 2 * tolE, case, t)
+                    _check(sh, "agree:getEPQ1~getEPQ2:P", a[1], b[1], 2 * tolP, case, t,
+                           src)
+                    if order == 1:
+                        _check(sh, "agree:getEPQ1~getEPQ2:Q", a[2], b[2], 2 * tolQ,
+                               case, t, src)
+                if "getEPQ" in results:
+                    # the dispatcher must return exactly what the documented route returns
+                    want = "getEPQ1" if norm1 <= THETA9 else "getEPQ2"
+                    if want in results and abs(norm1 / THETA9 - 1) > 1e-13:
+                        a, b = results["getEPQ"], results[want]
+                        same = all(np.array_equal(np.asarray(x), np.asarray(y))
+                                   for x, y in zip(a[:3], b[:3]))
+                        sh.check_equal("agree:getEPQ==dispatched-route", same, True,
+                                       case, a[3])
+                if "getEPQ_pow" in results and "getEPQ1" in results:
+                    a, b = results["getEPQ_pow"], results["getEPQ1"]
+                    ex = 64 * EPS * math.exp(norm1)
+                    t = dict(b[3], other="getEPQ_pow")
+                    _check(sh, "agree:getEPQ_pow~getEPQ1:P", a[1], b[1],
+                           2 * tolP + ex * h * bnorm, case, t, src)
+                # one discrete step reproduces the exactly sampled response
+                rr = n if (B is None and not half) else (n // 2 if B is None else r_in)
+                if results and n + 2 * rr <= 12 and (i + order) % 2 == 0:
+                    if B is None:
+                        Bc = np.eye(n)[:, :rr]
+                    else:
+                        Bc = B
+                    u = r.standard_normal((rr, 2))
+                    try:
+                        xs = lti.simulate_first_order(A, Bc, u, h, x0=x0, order=order,
+                                                      dps=40)[:, 1]
+                    except Exception:
+                        xs = None
+                    if xs is not None and np.all(np.isfinite(xs)):
+                        mag = (np.abs(Eref) @ np.abs(x0) + np.abs(Pref) @ np.abs(u[:, 0])
+                               + (np.abs(Qref) @ np.abs(u[:, 1]) if order == 1 else 0))
+                        tol1 = (tolE * np.abs(x0).sum() + tolP * np.abs(u[:, 0]).sum()
+                                + (tolQ * np.abs(u[:, 1]).sum() if order == 1 else 0)
+                                + 1e-13 * float(mag.max()))
+                        # oracle-vs-oracle: expm_mp's E,P,Q against lti's Van Loan step
+                        xo = Eref @ x0 + Pref @ u[:, 0] + (Qref @ u[:, 1]
+                                                          if order == 1 else 0)
+                        sh.check_close("oracle-onestep", xo, xs, tol1, case,
+                                       dict(tags0, order=order, bkind=bkind))
+                        for route, (E, P, Q, t) in results.items():
+                            x1 = E @ x0 + P @ u[:, 0] + (Q @ u[:, 1] if order == 1 else 0)
+                            extra = (64 * EPS * math.exp(norm1) * float(mag.max())
+                                     if route == "getEPQ_pow" else 0.0)
+                            # error scale of the P/Q contribution (symptom bound of the
+                            # known _geti2 findings is expressed against it)
+                            usum = float(np.abs(u[:, 0]).sum()
+                                         + (np.abs(u[:, 1]).sum() if order == 1 else 0))
+                            _check(sh, f"onestep:{route}", x1, xs, tol1 + extra, case,
+                                   t, (src * usum) or None)
+
+
+def _geti2_path(trace):
+    p = None
+    for e in trace.ev:
+        if isinstance(e, str) and e.startswith("geti2:"):
+            if e == "geti2:series-fail":
+                return "series-fail"
+            if e in ("geti2:pade", "geti2:direct", "geti2:series"):
+                p = e[6:]
+    return p
+
+
+# =====================================================================================
+# part B: SSModel.c2d / d2c
+# =====================================================================================
+
+METHODS = ["zoh", "zoha", "foh", "tustin"]
+
+
+def make_system(r):
+    """Random stable MIMO system with cond(eigvecs) <= 1e4 and max|lambda| h < pi/2.
+
+    Returns dict(A, B, C, D, h, kind, theta, condV)."""
+    import numpy as np
+    for attempt in range(40):
+        n = int(r.integers(1, 9))
+        nin = int(r.integers(1, 4))
+        nout = int(r.integers(1, 4))
+        lam = []
+        blocks = []
+        while len(lam) < n:
+            if n - len(lam) >= 2 and r.random() < 0.6:
+                w = float(np.exp(r.uniform(np.log(0.05), 0.0)))
+                z = float(np.exp(r.uniform(np.log(0.005), np.log(0.7))))
+                a, b = -z * w, w * math.sqrt(1 - z * z)
+                lam += [complex(a, b), complex(a, -b)]
+                blocks.append(np.array([[a, b], [-b, a]]))
+            else:
+                a = -float(np.exp(r.uniform(np.log(0.02), 0.0)))
+                lam.append(complex(a, 0))
+                blocks.append(np.array([[a]]))
+        L = np.zeros((n, n))
+        k = 0
+        for b in blocks:
+            m = b.shape[0]
+            L[k:k + m, k:k + m] = b
+            k += m
+        kind = ["modal", "orth", "sim", "sim", "companion"][int(r.integers(0, 5))]
+        if attempt > 30:
+            kind = "orth"
+        if kind == "modal":
+            A = L
+        elif kind == "orth":
+            Qm, _ = np.linalg.qr(r.standard_normal((n, n)))
+            A = Qm @ L @ Qm.T
+        elif kind == "sim":
+            U, _ = np.linalg.qr(r.standard_normal((n, n)))
+            V, _ = np.linalg.qr(r.standard_normal((n, n)))
+            sv = np.logspace(0, r.uniform(0, 2.5), n)
+            T = (U * sv) @ V.T
+            A = T @ L @ np.linalg.inv(T)
+        else:
+            c = np.real(np.poly(lam))
+            A = np.zeros((n, n))
+            A[0, :] = -c[1:]
+            if n > 1:
+                A[1:, :-1] = np.eye(n - 1)
+        wscale = float(r.choice([1.0, 1.0, 40.0, 1e3, 0.02]))
+        A = A * wscale
+        ev, V = np.linalg.eig(A)
+        condV = float(np.linalg.cond(V))
+        if not np.isfinite(condV) or condV > 1e4:
+            continue
+        if len(ev) > 1:
+            d = np.abs(ev[:, None] - ev[None, :]) + np.eye(len(ev)) * 1e300
+            if d.min() < 1e-3 * np.abs(ev).max():
+                continue
+        theta = float(np.exp(r.uniform(np.log(0.003), np.log(1.5))))
+        h = theta / float(np.abs(ev).max())
+        B = r.standard_normal((n, nin))
+        C = r.standard_normal((nout, n))
+        D = r.standard_normal((nout, nin)) if r.random() < 0.8 else np.zeros((nout, nin))
+        return dict(A=A, B=B, C=C, D=D, h=h, kind=kind, theta=theta, condV=condV)
+    raise RuntimeError("generator could not satisfy the eigenvector-conditioning cap")
+
+
+def _vl_float(A, h):
+    """E, I1, I2 in float64 from scipy expm of Van Loan's 3n x 3n matrix."""
+    import numpy as np
+    from scipy.linalg import expm
+    n = A.shape[0]
+    Z = np.zeros((3 * n, 3 * n))
+    Z[:n, :n] = A
+    Z[:n, n:2 * n] = np.eye(n)
+    Z[n:2 * n, 2 * n:] = np.eye(n)
+    X = expm(Z * h)
+    E = X[:n, :n]
+    I1 = X[:n, n:2 * n]
+    return E, I1, h * I1 - X[:n, 2 * n:]
+
+
+def c2d_formulas(E, I1, I2, h, B, C, D, method):
+    """Documented c2d maps, written on plain arrays (works for mp matrices too)."""
+    if method == "zoh":
+        return E, I1 * B, C, D, None
+    if method == "zoha":
+        P = (I1 * B) / 2 if hasattr(I1, "rows") else (I1 @ B) / 2
+        if hasattr(I1, "rows"):
+            return E, P + E * P, C, D + C * P, P
+        return E, P + E @ P, C, D + C @ P, P
+    if method == "foh":
+        if hasattr(I1, "rows"):
+            P = (I2 / h) * B
+            Q = (I1 - I2 / h) * B
+            return E, P + E * Q, C, D + C * Q, Q
+        P = (I2 / h) @ B
+        Q = (I1 - I2 / h) @ B
+        return E, P + E @ Q, C, D + C @ Q, Q
+    raise ValueError(method)
+
+
+def c2d_ref_mp(S, h, method, mp_ints):
+    """(Az, Bz, Cz, Dz, shift) float arrays from mp E, I1, I2."""
+    from vf.oracles import expm_mp
+    import mpmath
+    E, I1, I2 = mp_ints
+    Bm, Cm, Dm = expm_mp.to_mp(S["B"]), expm_mp.to_mp(S["C"]), expm_mp.to_mp(S["D"])
+    with mpmath.mp.workdps(50):
+        hh = mpmath.mpf(float(h))
+        if method == "zoh":
+            out = (E, I1 * Bm, Cm, Dm, None)
+        else:
+            out = c2d_formulas(E, I1, I2, hh, Bm, Cm, Dm, method)
+        return tuple(None if x is None else expm_mp.to_np(x) for x in out)
+
+
+def tustin_k(h, prewarp):
+    if prewarp is None or prewarp == 0:
+        return 2.0 / h
+    return prewarp / math.tan(prewarp * h / 2.0)
+
+
+def tf_c(A, B, C, D, s):
+    """H(s) = C (sI - A)^-1 B + D for an array of complex s -> (len(s), p, m)."""
+    import numpy as np
+    n = A.shape[0]
+    out = np.empty((len(s), C.shape[0], B.shape[1]), complex)
+    for k, sk in enumerate(s):
+        out[k] = C @ np.linalg.solve(sk * np.eye(n) - A, B.astype(complex)) + D
+    return out
+
+
+def d2c_ref(Z, h, method):
+    """Independent continuous model from a discrete one: A = logm(Az)/h (Schur based),
+    B, D from the documented inverse formulas.  Returns (A, B, C, D)."""
+    import numpy as np
+    from scipy.linalg import logm
+    Az, Bz, Cz, Dz = Z
+    n = Az.shape[0]
+    A = logm(Az)
+    A = np.real(A) / h
+    return (A,) + d2c_bd(A, Z, h, method)
+
+
+def d2c_bd(A, Z, h, method):
+    import numpy as np
+    Az, Bz, Cz, Dz = Z
+    n = Az.shape[0]
+    if method == "zoh":
+        return np.linalg.solve(Az - np.eye(n), A @ Bz), Cz, Dz
+    E, I1, I2 = _vl_float(A, h)
+    if method == "zoha":
+        P = I1 / 2
+        Q = P
+    else:
+        Q = I1 - I2 / h
+        P = I1 - Q
+    B = np.linalg.solve(P + Az @ Q, Bz)
+    return B, Cz, Dz - Cz @ (Q @ B)
+
+
+def _spread(f, nominal, args_pert):
+    """max-abs spread per output of f over perturbed argument sets."""
+    import numpy as np
+    sig = [0.0] * len(nominal)
+    for a in args_pert:
+        out = f(*a)
+        for j, (x, y) in enumerate(zip(out, nominal)):
+            if x is None or y is None:
+                continue
+            d = np.abs(np.asarray(x) - np.asarray(y))
+            sig[j] = max(sig[j], float(d.max()) if d.size else 0.0)
+    return sig
+
+
+def _tol(sig, want):
+    import numpy as np
+    sc = float(np.max(np.abs(want))) if np.size(want) else 0.0
+    return 200.0 * (sig / 1e-13) * EPS + 1e-13 * sc
+
+
+def _run_ss(sh, params):
+    import numpy as np
+    from pyyeti import ssmodel
+    from vf.oracles import expm_mp, lti
+    slice_, nslice = params["slice"], params["nslice"]
+    nsys = (60 if sh.tier == "quick" else 400)
+    for i in range(nsys):
+        r = core.rng(sh.seed, "C07", "ss", slice_, i)
+        try:
+            S = make_system(r)
+        except RuntimeError:
+            sh.refused += 1
+            continue
+        A, B, C, D, h = S["A"], S["B"], S["C"], S["D"], S["h"]
+        n = A.shape[0]
+        base = {"part": "ss", "slice": slice_, "i": i, "n": n, "nin": B.shape[1],
+                "nout": C.shape[0], "kind": S["kind"], "theta": S["theta"],
+                "condV": S["condV"], "h": h,
+                "regen": "vf.props.c07.make_system(core.rng(seed,'C07','ss',slice,i))"}
+        if n <= 3:
+            base.update(A=A.tolist(), B=B.tolist(), C=C.tolist(), D=D.tolist())
+        tags0 = {"part": "ss", "kind": S["kind"], "n": n, "condV": S["condV"],
+                 "theta": S["theta"], "norm1": float(h * np.linalg.norm(A, 1))}
+        sh.count("sskind:" + S["kind"])
+        sh.count("ssnorm:" + ("above" if tags0["norm1"] > THETA9 else "below") + "-switch")
+        # ---- oracle: E, I1, I2 in mp, nominal + 3 norm-wise perturbed copies ------------
+        ref = Ref(A, h, r)
+        pert = []
+        for Ak, hk, mpk in ref.pert:
+            pert.append((dict(A=Ak, B=_perturb(B, r), C=_perturb(C, r),
+                              D=_perturb(D, r)), hk, mpk))
+        cont = SSm = ssmodel.SSModel(A, B, C, D)
+        # trivial identities
+        sh.check_equal("d2c-of-continuous-is-self", cont.d2c() is cont, True, base, tags0)
+
+        w0 = float(np.exp(r.uniform(np.log(0.05), np.log(0.9))) * math.pi / h)
+        for method in METHODS:
+            prewarps = [0] if method != "tustin" else [0, None, w0]
+            for prewarp in prewarps:
+                case = dict(base, method=method, prewarp=prewarp)
+                tags = dict(tags0, method=method, prewarp=bool(prewarp))
+                sh.case([slice_, i, method, prewarp], nontrivial=bool(B.any() and C.any()),
+                        sample=case)
+                sh.count(f"method:{method}" + (":prewarp" if prewarp else ""))
+                try:
+                    with warnings.catch_warnings():
+                        warnings.simplefilter("ignore")
+                        if method == "tustin":
+                            Zp = cont.c2d(h, method, prewarp)
+                        else:
+                            Zp = cont.c2d(h, method)
+                except Exception as e:
+                    sh.violation("exception:c2d", case, {"exc": repr(e)[:300]},
+                                 dict(tags, exc_type=type(e).__name__))
+                    continue
+                sh.check_equal("c2d:attrs", [Zp.h, Zp.method], [h, method], case, tags)
+                sh.check_equal("c2d-of-discrete-is-self", Zp.c2d(h) is Zp, True, case, tags)
+                Zt = (Zp.A, Zp.B, Zp.C, Zp.D)
+                if method == "tustin":
+                    _tustin_checks(sh, S, h, prewarp, Zp, r, case, tags, ssmodel)
+                    continue
+                # ---- c2d one-way versus mp ---------------------------------------------
+                want = c2d_ref_mp(S, h, method, ref.mp0)
+                sig = [0.0] * 4
+                for Sk, hk, mpk in pert:
+                    wk = c2d_ref_mp(Sk, hk, method, mpk)
+                    for j in range(4):
+                        sig[j] = max(sig[j], float(np.max(np.abs(wk[j] - want[j]))))
+                tolc = [_tol(sig[j], want[j]) for j in range(4)]
+                for j, nm in enumerate("ABCD"):
+                    sh.check_close(f"c2d:{method}:{nm}", Zt[j], want[j], tolc[j], case,
+                                   tags)
+                # ---- sampled outputs ----------------------------------------------------
+                _sampled_output(sh, S, h, method, Zt, want[4], pert, r, case, tags, lti)
+                # ---- d2c one-way (input: pyYeti's own discrete model) + round trip ------
+                _d2c_checks(sh, S, h, method, Zp, Zt, tolc, r, case, tags, i)
+
+
+def _sampled_output(sh, S, h, method, Zt, shift, pert, r, case, tags, lti):
+    import numpy as np
+    A, B, C, D = S["A"], S["B"], S["C"], S["D"]
+    n, nin = B.shape
+    nt = 12
+    u = r.standard_normal((nin, nt))
+    x0 = r.standard_normal(n)
+
+    def exact(A_, B_, C_, D_, h_, u_, x0_, dps=None):
+        if method == "foh":
+            x = lti.simulate_first_order(A_, B_, u_, h_, x0=x0_, order=1, dps=dps)
+        elif method == "zoh":
+            x = lti.simulate_first_order(A_, B_, u_, h_, x0=x0_, order=0, dps=dps)
+        else:   # zoha: held value is the mean of the two neighbouring samples
+            ubar = np.empty_like(u_)
+            ubar[:, :-1] = (u_[:, :-1] + u_[:, 1:]) / 2
+            ubar[:, -1] = u_[:, -1]
+            x = lti.simulate_first_order(A_, B_, ubar, h_, x0=x0_, order=0, dps=dps)
+        return C_ @ x + D_ @ u_
+
+    y = exact(A, B, C, D, h, u, x0)
+    sig = 0.0
+    for Sk, hk, _ in pert:
+        yk = exact(Sk["A"], Sk["B"], Sk["C"], Sk["D"], hk, _perturb(u, r),
+                   _perturb(x0, r))
+        sig = max(sig, float(np.max(np.abs(yk - y))))
+    tol = _tol(sig, y)
+    Az, Bz, Cz, Dz = Zt
+    xt = x0.copy() if shift is None else x0 - shift @ u[:, 0]
+    yd = np.empty_like(y)
+    for k in range(nt):
+        yd[:, k] = Cz @ xt + Dz @ u[:, k]
+        xt = Az @ xt + Bz @ u[:, k]
+    last = nt if method != "zoha" else nt - 1     # last zoha sample needs u[nt]
+    sh.check_close(f"sampled:{method}", yd[:, :last], y[:, :last], tol, case, tags)
+    if case["i"] % 10 == 0:
+        ymp = exact(A, B, C, D, h, u, x0, dps=40)
+        sh.check_close("oracle-lti-float-vs-mp", y, ymp, tol, case, tags)
+
+
+def _d2c_checks(sh, S, h, method, Zp, Zt, tolc, r, case, tags, i):
+    import numpy as np
+    A, B, C, D = S["A"], S["B"], S["C"], S["D"]
+    try:
+        with warnings.catch_warnings():
+            warnings.simplefilter("ignore")
+            Sp = Zp.d2c(method)
+    except Exception as e:
+        sh.violation("exception:d2c", case, {"exc": repr(e)[:300]},
+                     dict(tags, exc_type=type(e).__name__))
+        return
+    sh.check_equal("d2c:attrs", [Sp.h, Sp.method], [None, method], case, tags)
+    got = (Sp.A, Sp.B, Sp.C, Sp.D)
+    if any(np.iscomplexobj(x) for x in got):
+        sh.violation("d2c:complex-output", case, {}, tags)
+    try:
+        want = d2c_ref(Zt, h, method)
+    except Exception:
+        sh.refused += 1
+        return
+    # conditioning of the inverse map: norm-wise 1e-13 perturbations of the discrete model
+    Zk = [(_perturb_norm(Zt[0], r), _perturb(Zt[1], r), _perturb(Zt[2], r),
+           _perturb(Zt[3], r)) for _ in range(3)]
+    sig = _spread(lambda *z: d2c_ref(z, h, method), want, [zk for zk in Zk])
+    ev, V = np.linalg.eig(Zt[0])
+    condV = float(np.linalg.cond(V))
+    tags = dict(tags, condVz=condV)
+    scA = float(np.max(np.abs(want[0])))
+    # pyYeti documents A = phi diag(log(lam)/h) inv(phi): inherent error eps*cond(phi)
+    tolA = _tol(sig[0], want[0]) + 200.0 * EPS * condV * scA
+    sh.check_close(f"d2c:{method}:A", got[0], want[0], tolA, case, tags)
+    # B and D inherit the (legitimate) error of A: measure that sensitivity on the oracle
+    sig2 = [0.0, 0.0, 0.0]
+    for _ in range(3):
+        Ak = want[0] + tolA * r.uniform(-1, 1, want[0].shape)
+        out = d2c_bd(Ak, Zt, h, method)
+        for j in range(3):
+            sig2[j] = max(sig2[j], float(np.max(np.abs(out[j] - want[j + 1]))))
+    tol = [tolA] + [_tol(sig[j + 1], want[j + 1]) + 10.0 * sig2[j] for j in range(3)]
+    # D = D_z - C Q B cancels (to zero when the continuous D is zero): scale by the terms
+    tol[3] += 1e-13 * float(np.max(np.abs(Zt[3]))) if np.size(Zt[3]) else 0.0
+    for j, nm in ((1, "B"), (2, "C"), (3, "D")):
+        sh.check_close(f"d2c:{method}:{nm}", got[j], want[j], tol[j], case, tags)
+    sh.worst("d2c-tolerance-looseness:A", tolA / (scA or 1.0) / 1e-6)
+    # explicit round trip: tolerance = d2c tolerance + amplified admissible c2d error
+    orig = (A, B, C, D)
+    for j, nm in enumerate("ABCD"):
+        rho = max(tolc[k] / (float(np.max(np.abs(Zt[k]))) or 1.0) for k in range(4))
+        amp = 10.0 * (rho / 1e-13) * sig[j]
+        sh.check_close(f"roundtrip:{method}:{nm}", got[j], orig[j], tol[j] + amp, case,
+                       tags)
+    if i % 7 == 0:
+        # oracle self-consistency: exact discretisation of the reference continuous model
+        E, I1, I2 = _vl_float(want[0], h)
+        if method == "zoh":
+            back = (E, I1 @ want[1], want[2], want[3])
+        else:
+            back = c2d_formulas(E, I1, I2, h, want[1], want[2], want[3], method)[:4]
+        for j in range(4):
+            sc = float(np.max(np.abs(Zt[j]))) or 1.0
+            sh.check_close("oracle-d2c-consistency", back[j], Zt[j],
+                           1e-9 * sc + 100 * tol[j], case, tags)
+
+
+def _pm(M, r, mag=1e-13):
+    """M + norm-wise perturbation (models the backward error of one LU solve with M)."""
+    import numpy as np
+    n = M.shape[0]
+    return M + mag * (np.linalg.norm(M, 1) / n) * r.uniform(-1, 1, M.shape)
+
+
+def _solve_bs(M, N, r=None):
+    """solve(M, N) as a backward-stable solver delivers it: with ``r`` every column of
+    the solution belongs to its own 1e-13 norm-wise perturbation of M (LU's backward
+    error differs from right-hand side to right-hand side, so the error of the solution
+    matrix is unstructured and of size cond(M) * perturbation)."""
+    import numpy as np
+    if r is None:
+        return np.linalg.solve(M, N)
+    N = np.asarray(N)
+    out = np.empty(N.shape, dtype=np.result_type(M, N, float))
+    for j in range(N.shape[1]):
+        out[:, j] = np.linalg.solve(_pm(M, r), N[:, j])
+    return out
+
+
+def tustin_c2d_ref(A, B, C, D, k, r=None):
+    """Documented bilinear c2d (optionally under the backward-error model of _solve_bs
+    for the solves with kI - A, and relative 1e-13 perturbations of B, C, D)."""
+    import numpy as np
+    n = A.shape[0]
+    M = k * np.eye(n) - A
+    if r is not None:
+        B, C, D = _perturb(B, r), _perturb(C, r), _perturb(D, r)
+    Az = _solve_bs(M, k * np.eye(n) + A, r)
+    QB = _solve_bs(M, B, r)
+    return Az, (np.eye(n) + Az) @ QB, C, C @ QB + D
+
+
+def tustin_d2c_ref(Z, k, r=None):
+    """Documented bilinear d2c; perturbation model as in tustin_c2d_ref."""
+    import numpy as np
+    Az, Bz, Cz, Dz = Z
+    n = Az.shape[0]
+    M = np.eye(n) + Az
+    if r is not None:
+        Bz, Cz, Dz = _perturb(Bz, r), _perturb(Cz, r), _perturb(Dz, r)
+    A = k * _solve_bs(M.T, (Az - np.eye(n)).T, r).T
+    QB = _solve_bs(M, Bz, r)
+    return A, (k * np.eye(n) - A) @ QB, Cz, Dz - Cz @ QB
+
+
+def _tf_scale(A, B, C, D, s):
+    """size of the terms added in C (sI-A)^-1 B + D, per frequency"""
+    import numpy as np
+    n = A.shape[0]
+    out = np.empty(len(s))
+    for k, sk in enumerate(s):
+        X = np.linalg.solve(sk * np.eye(n) - A, B.astype(complex))
+        out[k] = float((np.abs(C) @ np.abs(X) + np.abs(D)).max())
+    return out
+
+
+def _tustin_checks(sh, S, h, prewarp, Zp, r, case, tags, ssmodel):
+    import numpy as np
+    A, B, C, D = S["A"], S["B"], S["C"], S["D"]
+    n = A.shape[0]
+    k = tustin_k(h, prewarp)
+    th = r.uniform(0, 2 * math.pi, 50)
+    z = np.exp(1j * th)
+    s = k * (z - 1) / (z + 1)
+    Hc = tf_c(A, B, C, D, s)
+    # conditioning (a): of H_c itself; (b): of the transfer function of the documented
+    # discrete realisation under backward errors of its two linear solves
+    # (c): of the map "realisation -> transfer function" at the oracle's own discrete
+    # realisation under an unstructured 1e-13 perturbation.  (c) governs the harness's
+    # float evaluation of H_d from pyYeti's matrices and the effect of the (benign,
+    # few-eps) rounding errors in them; it enters with 20x instead of 200x because an
+    # unstructured perturbation is far more harmful than those errors (measured: a
+    # non-normal, lightly damped 2x2 case with cond(A) = 1e5 shows float-vs-float
+    # errors 1e3 below the unstructured spread but 3x above the structured ones)
+    Zo = tustin_c2d_ref(A, B, C, D, k)
+    Ho = tf_c(*Zo, z)
+    sig = np.zeros(len(z))
+    sigu = np.zeros(len(z))
+    for _ in range(3):
+        Hk = tf_c(_perturb_norm(A, r), _perturb(B, r), _perturb(C, r), _perturb(D, r), s)
+        sig = np.maximum(sig, np.abs(Hk - Hc).max(axis=(1, 2)))
+        Hk = tf_c(*tustin_c2d_ref(A, B, C, D, k, r), z)
+        sig = np.maximum(sig, np.abs(Hk - Hc).max(axis=(1, 2)))
+        Hk = tf_c(_pm(Zo[0], r), _perturb(Zo[1], r), _perturb(Zo[2], r),
+                  _perturb(Zo[3], r), z)
+        sigu = np.maximum(sigu, np.abs(Hk - Ho).max(axis=(1, 2)))
+    # error scale = size of the terms added, in the continuous form and in the (oracle's
+    # own) discrete realisation, whose D_z and C_z (zI - A_z)^-1 B_z cancel for |s| large
+    scale = np.maximum(_tf_scale(A, B, C, D, s), _tf_scale(*Zo, z))
+    tol = ((200.0 * sig + 20.0 * sigu) / 1e-13 * EPS + 1e-13 * scale)[:, None, None]
+    Hd = tf_c(Zp.A, Zp.B, Zp.C, Zp.D, z)
+    sh.check_close("tustin:c2d-bilinear-identity", Hd, Hc, np.broadcast_to(tol, Hc.shape),
+                   case, tags)
+    sh.check_equal("c2d:tustin:prewarp-attr", Zp.prewarp, prewarp, case, tags)
+    # oracle-vs-oracle: the independent realisation obeys the identity as well
+    sh.check_close("oracle-tustin-identity", tf_c(*Zo, z), Hc,
+                   np.broadcast_to(tol, Hc.shape), case, tags)
+    # ---- d2c of pyYeti's discrete model ------------------------------------------------
+    try:
+        Sp = Zp.d2c("tustin", prewarp)
+    except Exception as e:
+        sh.violation("exception:d2c", case, {"exc": repr(e)[:300]},
+                     dict(tags, exc_type=type(e).__name__))
+        return
+    sh.check_equal("d2c:attrs", [Sp.h, Sp.method], [None, "tustin"], case, tags)
+    Zt = (Zp.A, Zp.B, Zp.C, Zp.D)
+    want = tustin_d2c_ref(Zt, k)
+    sigd = np.zeros(len(z))
+    sg = [0.0] * 4
+    for _ in range(3):
+        Zk = (_perturb_norm(Zt[0], r), _perturb(Zt[1], r), _perturb(Zt[2], r),
+              _perturb(Zt[3], r))
+        sigd = np.maximum(sigd, np.abs(tf_c(*Zk, z) - Hd).max(axis=(1, 2)))
+        for Wk in (tustin_d2c_ref(Zt, k, r), tustin_d2c_ref(Zk, k)):
+            sigd = np.maximum(sigd, np.abs(tf_c(*Wk, s) - Hd).max(axis=(1, 2)))
+            for j in range(4):
+                sg[j] = max(sg[j], float(np.max(np.abs(Wk[j] - want[j]))))
+    Hw = tf_c(*want, s)
+    sigw = np.zeros(len(z))
+    for _ in range(3):
+        Hk = tf_c(_pm(want[0], r), _perturb(want[1], r), _perturb(want[2], r),
+                  _perturb(want[3], r), s)
+        sigw = np.maximum(sigw, np.abs(Hk - Hw).max(axis=(1, 2)))
+    scaled = np.maximum(np.maximum(scale, _tf_scale(*want, s)), _tf_scale(*Zt, z))
+    told = ((200.0 * sigd + 20.0 * sigw) / 1e-13 * EPS + 1e-13 * scaled)[:, None, None]
+    Hc2 = tf_c(Sp.A, Sp.B, Sp.C, Sp.D, s)
+    sh.check_close("tustin:d2c-bilinear-identity", Hc2, Hd,
+                   np.broadcast_to(told, Hc.shape), case, tags)
+    got = (Sp.A, Sp.B, Sp.C, Sp.D)
+    orig = (A, B, C, D)
+    # admissible relative error of the c2d stage: backward error of its solves
+    rho = 200.0 * EPS * float(np.linalg.cond(k * np.eye(n) - A)) + 1e-13
+    for j, nm in enumerate("ABCD"):
+        t = _tol(sg[j], want[j])
+        if j == 3:      # D = D_z - C_z Q B_z cancels: scale by the subtracted terms
+            t += 1e-13 * float(np.max(np.abs(Zt[3])))
+        sh.check_close(f"d2c:tustin:{nm}", got[j], want[j], t, case, tags)
+        sh.check_close(f"roundtrip:tustin:{nm}", got[j], orig[j],
+                       t + 10.0 * (rho / 1e-13) * sg[j] + _tol(0.0, orig[j]), case, tags)
+
+
+# =====================================================================================
+# verdict helpers
+# =====================================================================================
+
+MANDATORY_MONITORS = (
+    ["oracle-selfcheck", "oracle-precision", "oracle-onestep", "exception-free",
+     "expmint:E", "expmint:I1", "expmint-geti2:I2", "dispatch",
+     "agree:getEPQ==dispatched-route", "agree:getEPQ1~getEPQ2:P",
+     "agree:getEPQ1~getEPQ2:Q", "agree:getEPQ_pow~getEPQ1:P"]
+    + [f"{rt}:{q}" for rt in ("getEPQ1", "getEPQ2", "getEPQ", "getEPQ_pow")
+       for q in ("E", "P", "Q", "Q-order0")]
+    + [f"onestep:{rt}" for rt in ("getEPQ1", "getEPQ2", "getEPQ", "getEPQ_pow")]
+    + [f"c2d:{m}:{x}" for m in ("zoh", "zoha", "foh") for x in "ABCD"]
+    + [f"d2c:{m}:{x}" for m in METHODS for x in "ABCD"]
+    + [f"roundtrip:{m}:{x}" for m in METHODS for x in "ABCD"]
+    + [f"sampled:{m}" for m in ("zoh", "zoha", "foh")]
+    + ["tustin:c2d-bilinear-identity", "tustin:d2c-bilinear-identity",
+       "oracle-lti-float-vs-mp", "oracle-d2c-consistency", "oracle-tustin-identity"])
+
+
+def finalize(agg, tier):
+    why = []
+    c = agg["counters"]
+    for k in MANDATORY_MONITORS:
+        if not c.get("mon:" + k):
+            why.append(f"monitor {k} never evaluated")
+    hit = [b for b in BRANCHES if c.get("branch:" + b)]
+    need = 8 if tier == "quick" else len(BRANCHES)
+    if len(hit) < need:
+        why.append(f"only {len(hit)} of {len(BRANCHES)} expmint/getEPQ branches reached "
+                   f"(need {need}); missing {sorted(set(BRANCHES) - set(hit))}")
+    sshit = [b for b in SS_BRANCHES if c.get("branch:" + b)]
+    need = 4 if tier == "quick" else len(SS_BRANCHES)
+    if len(sshit) < need:
+        why.append(f"only {len(sshit)} of {len(SS_BRANCHES)} _expm_SS branches reached; "
+                   f"missing {sorted(set(SS_BRANCHES) - set(sshit))}")
+    for fam in FAMILIES:
+        if not c.get("family:" + fam):
+            why.append(f"matrix family {fam} never generated")
+    for m in ("zoh", "zoha", "foh", "tustin", "tustin:prewarp"):
+        if not c.get("method:" + m):
+            why.append(f"discretisation method {m} never executed")
+    for side in ("above", "below"):
+        if not c.get(f"ssnorm:{side}-switch"):
+            why.append(f"no c2d system {side} the getEPQ norm switch")
+    total = agg["evaluations"]
+    if agg["refused"] > 0.1 * max(total, 1):
+        why.append(f"oracle refused {agg['refused']} of {total} cases")
+    return why
+
+
+def evidence_extra(agg, tier):
+    c = agg["counters"]
+    return {
+        "branches_reached": {b: c.get("branch:" + b, 0) for b in BRANCHES + SS_BRANCHES},
+        "geti2_pade_orders": {k[7:]: v for k, v in c.items()
+                              if k.startswith("branch:geti2:pade") and k[-1].isdigit()},
+        "squaring_counts": {k[10:]: v for k, v in sorted(c.items())
+                            if k.startswith("squarings:")},
+        "norm_cells": {k[9:]: v for k, v in sorted(c.items())
+                       if k.startswith("normcell:")},
+    }
